@@ -15,14 +15,19 @@ from pathlib import Path
 from .. import drive, kit, pool, tlc, trace
 from ..common import NCPU, MachineryError, canon, log, mkscratch, scratch_root
 
-DEFAULTS = {"log_level": "INFO", "output_format": "text", "max_retries": "3", "timeout": "30", "greeting": "Hello"}
+DEFAULTS = {"log_level": "INFO", "output_format": "text", "max_retries": "3", "timeout": "30", "greeting": "Hello",
+            "feature_flag": "\0never printed"}
 VALUES = {
     "log_level": {1: "DEBUG", 2: "ERROR", 9: "BOGUS"},
     "output_format": {1: "json", 2: "yaml", 9: "xml"},
-    "max_retries": {1: "5", 2: "0", 9: "-1"},
-    "timeout": {1: "60", 2: "1", 9: "0"},
+    "max_retries": {1: "5", 2: "0", 3: "010", 9: "-1"},
+    "timeout": {1: "60", 2: "1", 3: "0100", 4: "1:30", 9: "0"},
+    "feature_flag": {1: "on", 2: "010", 3: "1:30", 4: "plain text"},
     "greeting": {1: "Hi", 2: "Hello there", 3: "007", 4: "1e3", 5: "yes", 6: "null", 7: "true story"},
 }
+# numeric keys: the number is what must come back (a decimal integer with a leading zero is that integer)
+# (a key without schema that holds no text yet reads "010" as the number 10 as well)
+PRINTED = {("max_retries", 3): "10", ("timeout", 3): "100", ("feature_flag", 2): "10"}
 USER_VALUES = {
     "nesting": {"max_nesting_depth": 2}, "srp": {"max_methods": 3, "max_loc": 77},
     "magic-numbers": {"allowed_numbers": [0, 1, 37], "max_small_integer": 4},
@@ -67,7 +72,8 @@ def job_hist(j: dict) -> dict:
         if op == "get":
             text = r["stdout"].rstrip("\n")
             table = {0: DEFAULTS[k], **VALUES[k]}
-            cands = [i for i, s in table.items() if s == text and i != 9]
+            cands = [i for i, s in table.items() if text in (s, PRINTED.get((k, i))) and i != 9
+                     and not (k == "timeout" and i == 4)]
             got = cands[0] if cands else -1
         steps.append({"exit": r["exit"] if r["exit"] is not None else -9, "changed": before != after, "got": got,
                       "stdout": r["stdout"][-120:], "stderr": r["stderr"][-200:]})
@@ -146,7 +152,7 @@ def job_init(j: dict) -> dict:
 
 def run(chk) -> None:
     quick = chk.tier == "quick"
-    chk.rule = ("(a) histories of config set/get/reset over 5 keys x {valid, invalid, type-ambiguous} values, "
+    chk.rule = ("(a) histories of config set/get/reset over 6 keys (5 of the schema, one of the user's own) x {valid, invalid, type-ambiguous} values, "
                 "simulated by TLC from ConfigTool.tla and replayed through real CLI processes on yaml and json "
                 "files (explicit --config and the default location); (b) init-config on every existing-file case "
                 "(subsets of 4 user sections x hyphen/underscore spelling x block/flow/commented style x 3 "
@@ -166,6 +172,10 @@ def run(chk) -> None:
     hists = gen_histories(chk, 60 if quick else 600, 5, chk.seed) + gen_histories(chk, 30 if quick else 300, 8, chk.seed + 1)
     # directed: accepted value then get; rejected value leaves bytes; reset
     hists += [[["set", "greeting", 3], ["get", "greeting", 0]], [["set", "max_retries", 2], ["get", "max_retries", 0]],
+              [["set", "max_retries", 3], ["get", "max_retries", 0]], [["set", "timeout", 3], ["get", "timeout", 0]],
+              [["set", "timeout", 1], ["set", "timeout", 4], ["get", "timeout", 0]],
+              [["set", "feature_flag", 1], ["get", "feature_flag", 0], ["set", "feature_flag", 2], ["get", "feature_flag", 0]],
+              [["set", "feature_flag", 3], ["get", "feature_flag", 0], ["reset", "", 0]],
               [["set", "log_level", 1], ["set", "log_level", 9], ["get", "log_level", 0]],
               [["set", "timeout", 1], ["reset", "", 0], ["get", "timeout", 0]]]
     jobs = []
@@ -222,7 +232,8 @@ def run(chk) -> None:
                             cur = 0
                         elif o[0] == "set" and o[1] == op[1] and o[2] != 9:
                             cur = o[2]
-                    vclass = "default" if cur == 0 else ("ambiguous" if op[1] == "greeting" and cur >= 3 else "plain")
+                    vclass = "default" if cur == 0 else ("ambiguous" if (op[1] == "greeting" and cur >= 3) or op[1] == "feature_flag"
+                                                        or (op[1] in ("max_retries", "timeout") and cur >= 3) else "plain")
                     vtext = {0: DEFAULTS[op[1]], **VALUES[op[1]]}[cur]
                 else:
                     vtext = VALUES[op[1]][op[2]] if op[0] == "set" else ""
